@@ -38,6 +38,7 @@ def setFlag (fl : Flags) (p : String × String) : Flags :=
   | "poolpriv" => { fl with poolRejectsPriv := bit p.2 }
   | "txv" => { fl with txVerdict := bit p.2 }
   | "atrkey" => { fl with atrKeepsKey := bit p.2 }
+  | "feecount" => { fl with feeTxCount := bit p.2 }
   | _ => fl
 
 def typOf : String → TxType
